@@ -1,7 +1,7 @@
 SPECIFICATION Spec
 CONSTANTS NU = 2  NG = 0  NC = 2  MaxOps = 7  Spurious = FALSE
   Amts <- A1  Ops <- OpsNone  KickSets <- KS1
-  ClearAtomic = TRUE  LogAtomic = TRUE  KickConsume = TRUE  OfflineOnVeto = TRUE  CloseOnLateVeto = TRUE  OnlineFloor = TRUE
+  ClearAtomic = TRUE  LogAtomic = TRUE  KickConsume = TRUE  OfflineOnVeto = TRUE  CloseOnLateVeto = TRUE  AuthAtomic = TRUE  OnlineFloor = TRUE
 INVARIANT NoViolation
 VIEW View
 CHECK_DEADLOCK FALSE
